@@ -912,6 +912,122 @@ func widthOf(acc, prev string) string {
 
 // ---------------------------------------------------------------------------------------------
 
+// panicSites: an inventory of the expressions in the given files that can raise a Go run-time panic — index and
+// slice expressions, type assertions without comma-ok, make with a computed size, close, division by a computed
+// value — counted per (file:function, kind).  C09's theorem `inventory_pinned` compares it with the reviewed table.
+func panicSites(files []string) string {
+	type key struct{ fn, kind string }
+	counts := map[key]int{}
+	for _, rel := range files {
+		f := mustFile(rel)
+		for _, d := range f.Decls {
+			fd, ok := d.(*ast.FuncDecl)
+			if !ok || fd.Body == nil {
+				continue
+			}
+			name := fd.Name.Name
+			if fd.Recv != nil && len(fd.Recv.List) > 0 {
+				t := fd.Recv.List[0].Type
+				if st, ok := t.(*ast.StarExpr); ok {
+					t = st.X
+				}
+				if id, ok := t.(*ast.Ident); ok {
+					name = id.Name + "." + name
+				}
+			}
+			fn := rel + ":" + name
+			// type assertions in comma-ok position or in a type switch cannot panic
+			safe := map[ast.Node]bool{}
+			ast.Inspect(fd.Body, func(n ast.Node) bool {
+				switch x := n.(type) {
+				case *ast.AssignStmt:
+					if len(x.Lhs) == 2 && len(x.Rhs) == 1 {
+						if ta, ok := x.Rhs[0].(*ast.TypeAssertExpr); ok {
+							safe[ta] = true
+						}
+						if ix, ok := x.Rhs[0].(*ast.IndexExpr); ok {
+							safe[ix] = true // v, ok := m[k]
+						}
+					}
+				case *ast.ValueSpec:
+					if len(x.Names) == 2 && len(x.Values) == 1 {
+						if ta, ok := x.Values[0].(*ast.TypeAssertExpr); ok {
+							safe[ta] = true
+						}
+					}
+				case *ast.TypeSwitchStmt:
+					ast.Inspect(x.Assign, func(m ast.Node) bool {
+						if ta, ok := m.(*ast.TypeAssertExpr); ok {
+							safe[ta] = true
+						}
+						return true
+					})
+				}
+				return true
+			})
+			ast.Inspect(fd.Body, func(n ast.Node) bool {
+				switch x := n.(type) {
+				case *ast.IndexExpr:
+					if !safe[x] {
+						counts[key{fn, "index"}]++
+					}
+				case *ast.SliceExpr:
+					counts[key{fn, "slice"}]++
+				case *ast.TypeAssertExpr:
+					if x.Type != nil && !safe[x] {
+						counts[key{fn, "assert"}]++
+					}
+				case *ast.CallExpr:
+					if id, ok := x.Fun.(*ast.Ident); ok {
+						if id.Name == "make" && len(x.Args) >= 2 {
+							if _, lit := x.Args[1].(*ast.BasicLit); !lit {
+								counts[key{fn, "make"}]++
+							}
+						}
+						if id.Name == "close" {
+							counts[key{fn, "close"}]++
+						}
+					}
+				case *ast.BinaryExpr:
+					if x.Op == token.QUO || x.Op == token.REM {
+						if _, lit := x.Y.(*ast.BasicLit); !lit {
+							counts[key{fn, "div"}]++
+						}
+					}
+				case *ast.AssignStmt:
+					if x.Tok == token.QUO_ASSIGN || x.Tok == token.REM_ASSIGN {
+						if _, lit := x.Rhs[0].(*ast.BasicLit); !lit {
+							counts[key{fn, "div"}]++
+						}
+					}
+				}
+				return true
+			})
+		}
+	}
+	var keys []key
+	for k := range counts {
+		keys = append(keys, k)
+	}
+	sort.Slice(keys, func(i, j int) bool {
+		if keys[i].fn != keys[j].fn {
+			return keys[i].fn < keys[j].fn
+		}
+		return keys[i].kind < keys[j].kind
+	})
+	var sb strings.Builder
+	sb.WriteString("def panicSites : List (String × String × Nat) := [\n")
+	for i, k := range keys {
+		sep := ","
+		if i == len(keys)-1 {
+			sep = ""
+		}
+		fmt.Fprintf(&sb, "  (%s, %s, %d)%s\n", leanStr(k.fn), leanStr(k.kind), counts[k], sep)
+	}
+	sb.WriteString("]\n")
+	return sb.String()
+}
+
 type fragment struct {
 	name string
 	gen  func() string
@@ -1139,6 +1255,15 @@ structure MethodFacts where
 				return true
 			})
 			return "def formatDirectives : List String := " + leanStrList(ds) + "\n"
+		}},
+	})
+
+	// ---- inventory of potential run-time panic sites (C09)
+	emitFile("PanicSites.lean", hdr, []fragment{
+		{"panicSites", func() string {
+			return panicSites([]string{"buffer/buffer.go", "goutil/argtypes.go", "errors/errors.go", "eventloop/eventloop.go",
+				"url/url.go", "url/nodeurl.go", "url/urlsearchparams.go", "url/escape.go", "util/module.go", "console/module.go",
+				"process/module.go", "require/module.go", "require/resolve.go"})
 		}},
 	})
 
